@@ -55,8 +55,41 @@ func (_this *Reader) Init(config *configuration.Configuration) {
 }
 
 func (_this *Reader) SetReader(reader io.Reader) {
-	_this.reader = reader
+	_this.reader = &fullReader{reader: reader}
 	_this.countedReader.owner = _this
+}
+
+// fullReader adapts any io.Reader to the stricter behaviour that this Reader and the external field decoders rely
+// on: a call either fills p completely and returns nil, or returns an error. Short reads are continued, empty
+// (0, nil) reads are retried, and an error delivered together with the last of the data is reported by the next call.
+type fullReader struct {
+	reader  io.Reader
+	pending error
+}
+
+func (_this *fullReader) Read(p []byte) (n int, err error) {
+	emptyReads := 0
+	for n < len(p) {
+		if _this.pending != nil {
+			err = _this.pending
+			return
+		}
+		var count int
+		count, err = _this.reader.Read(p[n:])
+		n += count
+		if err != nil {
+			_this.pending = err
+			err = nil
+			continue
+		}
+		if count > 0 {
+			emptyReads = 0
+		} else if emptyReads++; emptyReads >= 100 {
+			err = io.ErrNoProgress
+			return
+		}
+	}
+	return
 }
 
 // countedReader gives the external field decoders (ULEB128, compact float, compact time) a reader whose bytes count
